@@ -110,11 +110,16 @@ def _slices(rec, dreye, name, P, d, sig, scale, reuse_buffer):
             variants.append(("uint8", P.astype(np.uint8)))
         elif np.all(P == np.round(P)) and P.min() >= 0 and P.max() <= 65535:
             variants.append(("uint16", P.astype(np.uint16)))
+    if not reuse_buffer:
+        # the same cloud and plane in other units (mol instead of micromol and back): the slice is equivariant, so the answer
+        # divided by the unit factor is decided by the very same oracle and tolerances as the plain one
+        variants += [("float-unit-1e-6", P * 1e-6), ("float-unit-1e6", P * 1e6)]
     for c, (dt, Parg) in itertools.product(cs, variants):
         rec.path()
         rec.trans()
+        uf = 1e-6 if dt == "float-unit-1e-6" else (1e6 if dt == "float-unit-1e6" else 1.0)
         try:
-            R = np.asarray(dreye.proj_P_to_simplex(Parg, c), dtype=float)
+            R = np.asarray(dreye.proj_P_to_simplex(Parg, c * uf), dtype=float) / uf
         except Exception as e:  # noqa
             _v(rec, "e", dict(sig, api="proj_P_to_simplex", **exc_sig(e)), "proj_P_to_simplex raised %r" % (e,), dict(cloud=name, c=c),
                script="import numpy as np, dreye\nprint(dreye.proj_P_to_simplex(np.array(%r), %r))\n" % (P.tolist(), c))
@@ -145,7 +150,7 @@ def _slices(rec, dreye, name, P, d, sig, scale, reuse_buffer):
         rec.outcome("slice/%s" % ("ok" if bad is None else "bad"))
         if bad:
             _v(rec, bad[0], dict(sig, api="proj_P_to_simplex", what=bad[1][:40]), bad[1] + " (c=%s, %s-typed cloud)" % (c, dt), dict(cloud=name, c=c, dtype=dt), observed=R, expected=Opts,
-               script="import numpy as np, dreye\nprint(dreye.proj_P_to_simplex(np.array(%r), %r))\n" % (Parg.tolist(), c))
+               script="import numpy as np, dreye\nprint(dreye.proj_P_to_simplex(np.array(%r), %r))\n" % (Parg.tolist(), c * uf))
 
 
 def run_unit(unit, rec):
